@@ -727,8 +727,9 @@ func (r *refChain) predict(op Op) (bool, string) {
 type refWFNode struct {
 	key    string
 	inputs []WIn
-	svs    []string // static values declared on the handle and not yet handed to the graph
-	lateSV bool     // a static value declared after a successful Compile: refused like a late input
+	svs    []string        // static values declared on the handle and not yet handed to the graph
+	lateSV bool            // a static value declared after a successful Compile: refused like a late input
+	svDone map[string]bool // fields whose source is a static value that has been handed to the graph
 	// which parts of the node's input have been given a source
 	whole  bool
 	fields map[string]bool
@@ -876,13 +877,18 @@ func (r *refWF) predict(op Op) (bool, string) {
 					return false, "static-value-invalid"
 				}
 			}
+			// (a static value that is set again replaces the earlier one, whether or not a Compile that
+			// failed lies in between: Compile does not change what was built)
 			for _, f := range h.svs {
-				if h.whole || h.fields[f] {
+				if h.whole || (h.fields[f] && !h.svDone[f]) {
 					return false, "input-declaration-conflict"
 				}
 			}
 			for _, f := range h.svs {
-				h.fields[f] = true
+				if h.svDone == nil {
+					h.svDone = map[string]bool{}
+				}
+				h.fields[f], h.svDone[f] = true, true
 				h.any = true
 			}
 			h.svs = nil
